@@ -393,3 +393,106 @@ class MultiPortReceive(Contract):
         flat2 = [m for p in reversed(want_sets) for m in p]
         return {'returns': True, 'never-sleeps': len(log_of(h, 'sleep')) == 0,
                 'every-pending-message-of-every-open-port-collected-per-port-in-order': q == flat1 or q == flat2}
+
+
+# ====================================================================== C10: ownership discipline
+def queue_events(h, q):
+    return [e for e in h.ctx.log if e[0] in ('deque.read', 'deque.append', 'deque.popleft') and e[1] == id(q)]
+
+
+class _AnyIteration(LoopSpec):
+    """one arbitrary iteration of a polling loop (no state of its own)"""
+    header = 'True'
+
+    def inv(self, ip, fr, st):
+        return []
+
+
+def _discipline_cfgs():
+    out = []
+    for cls in ('BaseIOPort', 'EchoPort', 'IOPort', 'MultiPort'):
+        for op in ('receive-nonblocking', 'receive-blocking', 'poll', 'iter_pending', 'send'):
+            for pending in (0, 1, 2):
+                out.append({'cls': cls, 'op': op, 'pending': pending})
+    return tuple(out)
+
+
+_OPS = Harness('''
+    def do(p, op, msg):
+        if op == 'receive-nonblocking':
+            return p.receive(block=False)
+        if op == 'receive-blocking':
+            return p.receive()
+        if op == 'poll':
+            return p.poll()
+        if op == 'iter_pending':
+            return list(p.iter_pending())
+        if op == 'send':
+            return p.send(msg)
+''')
+
+
+@contract
+class LockDiscipline(Contract):
+    """every access to a port's message queue, and every use of the device behind it, happens while the lock that OWNS the
+    queue is held (the lock of the port that created the queue), on every path of every public operation.  Together with
+    the atomic-section contracts of C11 (one device send of a fresh equal copy; pop returns the head; append at the tail)
+    and the ASSUMED serialisability of critical sections of one lock this gives exactly-once, intact, per-sender FIFO
+    delivery under every interleaving."""
+    key = 'C10.lock-discipline'
+    target = P + 'BaseInput.receive'
+    properties = ('C10',)
+    configs = _discipline_cfgs()
+    loops = {(P + 'BaseInput.receive', 0): _ReceiveLoop(), (P + 'multi_receive', 0): _OnePass(),
+             (P + 'BaseInput.iter_pending', 0): _AnyIteration()}
+    raises = {OSError: 'closed_while_waiting'}
+    symbolic_only = True
+
+    def callee(self, h, cfg):
+        return _OPS.get(h)
+
+    def hooks(self, cfg):
+        return device_hooks()
+
+    def setup(self, h, cfg, ip):
+        import random
+        ip.models.table[_time.sleep] = sleep_model
+        ip.models.table[random.Random.shuffle] = lambda ipx, rng, lst: None
+
+    def inputs(self, h, cfg):
+        import mido.ports as MP
+        from .c_messages import msg_obj
+        h.block = cfg['op'] == 'receive-blocking'
+        msg = msg_obj(h, 'note_on', time='real')
+        cls = cfg['cls']
+        if cls == 'IOPort':
+            inp = port(h, 'BaseIOPort', pending=cfg['pending'])
+            h.owner_lock = h.lock
+            h.queue = attrs_of(inp)['_messages']
+            out_lock = Obj(LockModel, {})
+            outp = Obj(MP.BaseIOPort, {'name': 'out', '_lock': out_lock, 'closed': False, '_messages': collections.deque(), '_parser': Opaque('parser')})
+            h.port = Obj(MP.IOPort, {'input': inp, 'output': outp, 'name': 'io', '_messages': h.queue, 'closed': False,
+                                     '_lock': Obj(MP.DummyLock, {})})
+            h.lock = h.owner_lock
+        elif cls == 'MultiPort':
+            sub = Obj(MP.BaseIOPort, {'name': 'sub0', '_lock': Obj(LockModel, {}), 'closed': False,
+                                      '_messages': collections.deque([Pending(50)]), '_parser': Opaque('parser')})
+            p = port(h, 'MultiPort', pending=cfg['pending'], extra={'ports': [sub], 'yield_ports': False})
+            h.owner_lock = h.lock
+            h.queue = attrs_of(p)['_messages']
+        else:
+            p = port(h, cls, pending=cfg['pending'])
+            h.owner_lock = h.lock
+            h.queue = attrs_of(p)['_messages']
+        return [h.port, cfg['op'], msg], {}
+
+    def closed_while_waiting(self, h, cfg, a, pr):
+        return True
+
+    def ensures(self, h, cfg, a, r):
+        ev = queue_events(h, h.queue)
+        bad = [e for e in ev if id(h.owner_lock) not in e[2]]
+        dev = [e for e in h.ctx.log if e[0] in ('_send', '_receive') and e[1] == id(h.port)]
+        bad_dev = [e for e in dev if id(h.owner_lock) not in e[-1]]
+        return {'queue-touched-only-under-its-owning-lock': not bad,
+                'device-used-only-under-the-port-lock': not bad_dev}
